@@ -85,12 +85,69 @@ def make_check(f):
     return check
 
 
+TWICE = {  # format -> (module, class, constructor arguments after the opcode)
+    "prin_read_reservation": ("scsi_cdb_persistentreservein", "PersistentReserveInReadReservation", "PERSISTENT_RESERVE_IN"),
+    "prin_report_capabilities": ("scsi_cdb_persistentreservein", "PersistentReserveInReportCapabilities", "PERSISTENT_RESERVE_IN"),
+    "prin_read_keys": ("scsi_cdb_persistentreservein", "PersistentReserveInReadKeys", "PERSISTENT_RESERVE_IN"),
+    "prin_read_full_status": ("scsi_cdb_persistentreservein", "PersistentReserveInReadFullStatus", "PERSISTENT_RESERVE_IN"),
+    "getlbastatus": ("scsi_cdb_getlbastatus", "GetLBAStatus", None),
+    "reportluns": ("scsi_cdb_report_luns", "ReportLuns", "REPORT_LUNS"),
+    "rtpg": ("scsi_cdb_report_target_port_groups", "ReportTargetPortGroups", None),
+}
+
+
+def check_twice(fname):
+    """one command object, executed and decoded twice (retry / polling): after the second
+    decode the result is what a fresh decode of the second response gives - nothing of the first."""
+    import importlib
+    import pyscsi.pyscsi.scsi_enum_command as ec
+    from pyscsi.utils.converter import get_opcode
+
+    f = FORMATS[fname]
+    mod, clsname, key = TWICE[fname]
+    cls = getattr(importlib.import_module("pyscsi.pyscsi." + mod), clsname)
+
+    def check(t):
+        v1, v2 = t
+        if fname == "getlbastatus":
+            cmd = cls(next(get_opcode(ec.sbc, "9E")), 0, alloclen=4096)
+        elif fname == "rtpg":
+            cmd = cls(next(get_opcode(ec.spc, "A3")), alloclen=4096)
+        else:
+            cmd = cls(getattr(ec.spc, key), alloclen=4096)
+        outs = []
+        for v in (v1, v2):
+            data = bytes(f.build(v))[:4096]
+            cmd.datain[:] = bytes(4096)
+            cmd.datain[:len(data)] = data
+            try:
+                cmd.unmarshall()
+            except Exception as e:  # noqa
+                raise Violation("exc:%s@%s" % (type(e).__name__, common.innermost_pyscsi_frame(e)), {"error": repr(e)[:200]})
+            outs.append(cmd.result)
+        fresh = cls.unmarshall_datain(bytearray(cmd.datain))
+        if outs[1] != fresh:
+            extra = sorted(set(outs[1] or {}) - set(fresh or {})) if isinstance(outs[1], dict) and isinstance(fresh, dict) else []
+            raise Violation("mismatch:second_decode_carries_stale_data", {"stale_keys": extra, "got": common.short(outs[1], 300),
+                                                                          "want": common.short(fresh, 300)})
+        d = respgen.compare(outs[1], f.expect(v2))
+        if d is not None:
+            raise Violation("mismatch:second_decode:%s" % d[1], {"path": d[0], "got": d[2], "want": d[3]})
+        return True, ("decode_twice",)
+    return check
+
+
 def run(ctx):
+    for fname in TWICE:
+        f = FORMATS[fname]
+        common.search(ctx, fname + ":twice", st.tuples(f.strategy, f.strategy), check_twice(fname), ctx.n(40 * 8, 800 * 16))
     for name, f in FORMATS.items():
         common.search(ctx, name, case_strategy(f), make_check(f), ctx.n(100 * 8, 2500 * 16), max_causes=6)
 
 
 def replay(ctx, subject, case):
+    if subject.endswith(":twice"):
+        return check_twice(subject.split(":")[0])(tuple(case))
     make_check(FORMATS[subject])(tuple(case))
 
 
